@@ -90,8 +90,8 @@ def run(ctx):
     os.makedirs(base, exist_ok=True)
     r = core.stream(ctx.seed, "c14")
     cases = []  # (name, files{fname: text}, optset, kind)
-    nvalid = 40 if thorough else 8
-    nmut = 400 if thorough else 60
+    nvalid = 120 if thorough else 8
+    nmut = 1200 if thorough else 60
     valid_texts = []
     for i in range(nvalid):
         s = schemagen.generate(ctx.seed, "c14/%d" % i, rec_containers=(i % 2 == 1))
